@@ -69,12 +69,21 @@ func ensureSetup() {
 
 func buildSim() {
 	ensureSetup()
-	// statement-level instrumented copy of /repo's stats package (C17 component simulation)
-	gen := exec.Command("go1.26.8", "run", "./cmd/statsinstr", "/repo/internal/pkg/stats", filepath.Join(verifDir, "sim", "statsx"))
-	gen.Dir = verifDir
-	gen.Env = goEnv()
-	if out, err := gen.CombinedOutput(); err != nil {
-		fatal2("instrumenting /repo/internal/pkg/stats failed (not a violation):\n%s", out)
+	// statement-level instrumented copies of small concurrency-critical packages of /repo (component simulations)
+	instr := filepath.Join(buildDir, fmt.Sprintf("stmtinstr.%d", os.Getpid()))
+	bi := exec.Command("go1.26.8", "build", "-o", instr, "./cmd/stmtinstr")
+	bi.Dir = verifDir
+	bi.Env = goEnv()
+	if out, err := bi.CombinedOutput(); err != nil {
+		fatal2("building the instrumenter failed (not a violation):\n%s", out)
+	}
+	defer os.Remove(instr)
+	for _, c := range [][2]string{{"internal/pkg/stats", "statsx"}, {"internal/pkg/reactor", "reactorx"}, {"internal/pkg/controler/pause", "pausex"}, {"internal/pkg/archiver/ratelimiter", "ratelimiterx"}} {
+		gen := exec.Command(instr, filepath.Join("/repo", c[0]), filepath.Join(verifDir, "sim", c[1]), c[1])
+		gen.Dir = verifDir
+		if out, err := gen.CombinedOutput(); err != nil {
+			fatal2("instrumenting /repo/%s failed (not a violation):\n%s", c[0], out)
+		}
 	}
 	simBin = filepath.Join(buildDir, fmt.Sprintf("sim.%d.test", os.Getpid()))
 	cmd := exec.Command("go1.26.8", "test", "-c", "-tags", "verif", "-vet=off", "-overlay", filepath.Join(buildDir, "overlay.json"), "-o", simBin, "./sim")
